@@ -371,17 +371,37 @@ def hist_runs(cases):
         try:
             rs = np.random.RandomState(c["seed"])
             calls = []
+            kept, extra = [], {}
             if c["what"] == "kdtree_repeat":
+                # ONE cKDTree_MP object driven through a history of queries (same size with new values, other sizes, same
+                # size again); every returned array is KEPT by the caller and all of them are compared with the single-process
+                # results again after the last call; the caller overwrites the arrays it passed in after each call and, at the
+                # end, the arrays it received, and queries once more
                 import scipy.spatial as sp
                 from pyresample._spatial_mp import cKDTree_MP
                 data = rs.uniform(-1, 1, size=(c["ndata"], 3))
-                tree = cKDTree_MP(data, nprocs=c["nprocs"], chunk=c["chunk"], schedule=c["kind"])
+                data_in = data.copy()
+                tree = cKDTree_MP(data_in, nprocs=c["nprocs"], chunk=c["chunk"], schedule=c["kind"])
+                data_in[...] = 7.0       # the constructor documents an internal copy of data
                 ref = sp.cKDTree(data)
-                for j in range(c["repeat"]):
-                    x = rs.uniform(-1, 1, size=(c["nx"], 3))
-                    d1, i1 = tree.query(x, k=c["k"])
+                plan = c.get("plan") or [c["nx"]] * c["repeat"]
+                got = []
+                for nx in plan:
+                    x = rs.uniform(-1, 1, size=(nx, 3))
                     d0, i0 = ref.query(x, k=c["k"])
+                    x_in = x.copy()
+                    d1, i1 = tree.query(x_in, k=c["k"])
+                    x_in[...] = np.nan
                     calls.append(bool(d1.shape == d0.shape and np.array_equal(d1, d0) and np.array_equal(i1, i0)))
+                    got.append((d1, i1, d0.copy(), i0.copy()))
+                kept = [bool(np.array_equal(d1, d0) and np.array_equal(i1, i0)) for d1, i1, d0, i0 in got]
+                for d1, i1, _, _ in got:
+                    d1[...] = -1.0
+                    i1[...] = 0
+                x = rs.uniform(-1, 1, size=(plan[0], 3))
+                d0, i0 = ref.query(x, k=c["k"])
+                d1, i1 = tree.query(x, k=c["k"])
+                extra["after_scribble"] = bool(np.array_equal(d1, d0) and np.array_equal(i1, i0))
             elif c["what"] == "proj_repeat":
                 import pyproj
                 from pyproj import CRS
@@ -390,14 +410,31 @@ def hist_runs(cases):
                 crs = CRS.from_user_input(c["proj"])
                 tr = pyproj.Transformer.from_crs(get_geodetic_crs_with_no_datum_shift(crs), crs, always_xy=True)
                 pmp = Proj_MP(c["proj"])
-                for j in range(c["repeat"]):
-                    lons = rs.uniform(-60, 60, size=c["n"])
-                    lats = rs.uniform(-70, 70, size=c["n"])
-                    x1, y1 = pmp(lons, lats, nprocs=c["nprocs"], chunk=c["chunk"], schedule=c["kind"])
-                    xs, ys = tr.transform(lons, lats)
+                plan = c.get("plan") or [[c["n"]]] * c["repeat"]
+                got = []
+
+                def one(shape):
+                    lons = rs.uniform(-60, 60, size=tuple(shape))
+                    lats = rs.uniform(-70, 70, size=tuple(shape))
+                    xs, ys = tr.transform(lons.ravel(), lats.ravel())
+                    xs, ys = np.asarray(xs, dtype=float).reshape(lons.shape), np.asarray(ys, dtype=float).reshape(lons.shape)
                     x0, y0 = pyproj.Proj(c["proj"])(lons, lats)
-                    calls.append(bool(np.array_equal(x1, xs) and np.array_equal(y1, ys)
-                                      and np.allclose(x1, x0, rtol=1e-12, atol=1e-6) and np.allclose(y1, y0, rtol=1e-12, atol=1e-6)))
+                    a, b = lons.copy(), lats.copy()
+                    x1, y1 = pmp(a, b, nprocs=c["nprocs"], chunk=c["chunk"], schedule=c["kind"])
+                    a[...] = np.nan          # the caller reuses its input buffers
+                    b[...] = np.nan
+                    ok = bool(x1.shape == lons.shape and np.array_equal(x1, xs) and np.array_equal(y1, ys)
+                              and np.allclose(x1, x0, rtol=1e-12, atol=1e-6) and np.allclose(y1, y0, rtol=1e-12, atol=1e-6))
+                    return ok, (x1, y1, xs, ys)
+                for shape in plan:
+                    ok, g = one(shape)
+                    calls.append(ok)
+                    got.append(g)
+                kept = [bool(np.array_equal(x1, xs) and np.array_equal(y1, ys)) for x1, y1, xs, ys in got]
+                for x1, y1, _, _ in got:
+                    x1[...] = -1.0
+                    y1[...] = -1.0
+                extra["after_scribble"] = one(plan[0])[0]
             elif c["what"] == "proj_layout":
                 # the same logical coordinate arrays handed in with different memory layouts / dtypes: the result may
                 # depend on the VALUES at each index only
@@ -450,7 +487,11 @@ def hist_runs(cases):
                 calls.append(bool(np.array_equal(v1, v0) and np.array_equal(o1, o0) and i1.shape == i0.shape
                                   and np.array_equal(i1, i0) and np.allclose(d1, d0, rtol=1e-9, atol=1e-6)))
                 calls.append(bool(np.any(np.isfinite(d0))))     # the reference finds neighbours (non-trivial case)
-            res.append({"ok": all(calls), "calls": calls})
+            r = {"ok": all(calls) and all(kept) and all(extra.values()), "calls": calls}
+            if kept:
+                r["kept"] = kept
+            r.update(extra)
+            res.append(r)
         except Exception as e:
             res.append({"error": "%s: %s" % (type(e).__name__, e)})
     return res
